@@ -217,6 +217,17 @@ fn macro_part(r: &mut Report) {
             reqs_.push(("get_item", RawReq { method: Method::GET, uri, headers: hdrs.clone(), body: vec![] }, vec!["QZTFOOXJW", "QZTPLNXJW", "QZTCNTXJW", "QZTQKYXJW", "QZTNNNXJW"]));
         }
     }
+    // media types that are request data: the endpoint declares both negotiation headers as
+    // non-safe arguments, and the body is not safe either
+    let medias: Vec<String> = ["application/json", "application/vnd.QZTMEDXJW+xml", "application/QZTMEDXJW", "QZTMEDXJW/json", "application/json; charset=QZTMEDXJW", "QZTMEDXJW", "text/plain; q=QZTMEDXJW"].iter().map(|s| s.to_string()).collect();
+    let accepts: Vec<String> = ["application/json", "*/*", "application/vnd.QZTACCXJW+xml", "application/QZTACCXJW, text/QZTACCXJW;q=0.5", "QZTACCXJW", "application/json;q=0.0, QZTACCXJW/*"].iter().map(|s| s.to_string()).collect();
+    for m in &medias {
+        for a in &accepts {
+            for b in ["\"QZTSECXJW\"", "{\"QZTSECXJW\":1}"] {
+                reqs_.push(("typed", RawReq { method: Method::POST, uri: "/m/typed", headers: vec![("content-type", m.clone().into_bytes()), ("accept", a.clone().into_bytes())], body: b.as_bytes().to_vec() }, vec!["QZTMEDXJW", "QZTACCXJW", secret_taint]));
+            }
+        }
+    }
     for (name, req, taints) in &reqs_ {
         r.states += 1;
         for asynch in [false, true] {
